@@ -36,7 +36,8 @@ EXPLANATION = (
     "install, a multi-valued table, or re-pointing on uninstall), and the node-level install/uninstall requests "
     "delegate to the software manager; R13.5 every call of the node's bulk start-up routine (the method that starts all "
     "services and runs all applications) comes, on every path, after the store operating_state = ON, because Service.start and "
-    "Application.run refuse on a node that is not ON. R13.6 = C12's R12.5 (the node-power guard of the software base classes is exact) applied here. "
+    "Application.run refuse on a node that is not ON. R13.7 accepted means done: in every lifecycle method the operating_state store is unavoidable past the node-power guard and the accepting arm of the method's own source-state test (no other early refusal). "
+    "R13.6 = C12's R12.5 (the node-power guard of the software base classes is exact) applied here. "
     "NOT decided: the number of ticks a restart/install "
     "takes (counter arithmetic), conformance of arbitrary request sequences to a reference model (behavioural), and "
     "whether the handler reached past the gate does the right thing."
@@ -1175,6 +1176,51 @@ def r13_5(ctx: Ctx) -> None:
     ctx.floor("R13.5", "call sites of the bulk start-up routine", n, 2)
 
 
+def r13_7(ctx: Ctx, svc: Set[str], app: Set[str]) -> None:
+    """The documented table says from which states a lifecycle request is accepted; accepted must mean done.  On a path that takes
+    the accepting arm of the method's own state test (or has none, like disable) and passes the node-power guard, the state store
+    is unavoidable: any other early `return False` (a health test, the outcome of another call) refuses a request the table accepts."""
+    ix = ctx.ix
+    ctx.rule("R13.7", "a lifecycle request is refused only by the node-power guard or by the method's own source-state test: past both, "
+                      "the operating_state store is unavoidable")
+    n_inst = 0
+    for cname, table in TABLES.items():
+        uni = svc if cname == "Service" else app
+        for mname in table:
+            if mname == "apply_timestep":
+                continue
+            f = ix.method(f"{cname}.{mname}")
+            g = CFG(f.node)
+            ld = LocalDefs(f.node)
+            stores = [x for x in g.nodes if store_of_field(x, "self", ["operating_state"]) is not None]
+            if not stores:
+                raise AnalysisError(f"R13.7: {cname}.{mname} stores no operating_state")
+
+            def refusing(e: Edge) -> bool:
+                if not (e.label and e.label[0] == "cond"):
+                    return False
+                x = ld.expand(e.label[1])
+                if isinstance(x, ast.Call) and call_name(x) == "_can_perform_action":
+                    return e.label[2] is False
+                es = edge_state_set(e, ["operating_state"], uni, ld)
+                if es is not None and es[0] == "self":
+                    want = {t for t in table[mname]}  # target states
+                    srcs = set()
+                    for t in want:
+                        v = table[mname][t]
+                        srcs |= (set(uni) if v == ALL else set(v))
+                    return not (set(es[1]) & srcs)  # the arm on which no accepted source state remains
+                return False
+
+            p = g.path_avoiding([g.exit], refusing, blocked_nodes={x.id for x in stores})
+            n_inst += 1
+            ctx.record("R13.7", ctx.key(f, "accepted means done"), f.loc(), p is None,
+                       "past the node-power guard and the source-state test every path stores the new state" if p is None else
+                       f"{cname}.{mname} can return without changing state although the node-power guard and the source-state test "
+                       "accepted the request", path_text(p))
+    ctx.floor("R13.7", "lifecycle methods", n_inst, 8)
+
+
 def check(ctx: Ctx) -> None:
     svc = _expect_enum(ctx.ix, "ServiceOperatingState", SVC_STATES)
     app = _expect_enum(ctx.ix, "ApplicationOperatingState", APP_STATES)
@@ -1184,6 +1230,7 @@ def check(ctx: Ctx) -> None:
     r13_3(ctx, uni)
     r13_4(ctx)
     r13_5(ctx)
+    r13_7(ctx, svc, app)
     # "start/run are accepted only with the node ON": the node-power guard of the software base classes is C12's rule R12.5
     from . import c12
     nuni = set(ctx.ix.enum_members(ctx.ix.cls("NodeOperatingState")))
